@@ -3,7 +3,12 @@
 // One base (virtual clock owned by the harness), 1..6 priorities, <= 8 "event tasks" (struct event, fd -1, activated by hand),
 // 44 deferred callbacks (struct event_callback, event_deferred_cb_schedule_), loopexit requests (NULL / zero / finite timeout).
 // Every callback draws up to two actions (activate, activate-later, schedule deferred, burst of 30..44 deferreds, break,
-// exit, continue, advance the clock, del / cancel, change priority, re-activate itself).
+// exit, continue, advance the clock, del / cancel, change priority, re-activate itself, event_add).
+// Event tasks come in four KINDS, i.e. one per dispatch path ("closure") of event_process_active_single_queue: plain one-shot
+// (events 0), EV_PERSIST, signal event (EV_SIGNAL|EV_PERSIST, as made by evsignal_new) and one-shot EV_SIGNAL.  A signal
+// task may be made pending with event_add (never-raised SIGURG / SIGWINCH) and every event_active carries ncalls 1..4: a
+// signal event is then dispatched as a BATCH of ncalls invocations of its callback, each invocation an observation point
+// that draws its own actions (so break / exit / continue / del / activations happen in call k of n).
 //
 // Oracle: a reference scheduler (struct Model) is advanced in lock-step with the three observation points — user callbacks,
 // the intercepted backend wait, the return of event_base_loop.  At each observation the model says what must come next
@@ -16,6 +21,10 @@
 //   the next iteration; ONCE: return when a pass ran callbacks and nothing is active; NONBLOCK: zero-timeout waits, return
 //   when nothing is active after a wait; no events at all and no NO_EXIT_ON_EMPTY: return 1; "later" and over-quota deferred
 //   callbacks become runnable only at the top of the next iteration; every activation runs exactly once (unless cancelled).
+//   A batch of n signal invocations is ONE callback for the callback cap / time cap / continue / preemption (all looked at
+//   when the batch is over) but loopbreak "stops after the running callback", i.e. after the running INVOCATION; event_del of
+//   the running signal event ends its batch too; nothing else does (not loopexit's flag, not loopcontinue).  A pending
+//   (added) event keeps a loop without NO_EXIT_ON_EMPTY from returning 1.
 // Preconditions respected: priority_init before anything is active; events freed / deferreds cancelled before base free;
 // the clock moves inside callbacks only with EVENT_BASE_FLAG_NO_CACHE_TIME (so "now" is unambiguous for the model).
 #include "verif.h"
@@ -25,6 +34,7 @@
 #include <deque>
 #include <algorithm>
 #include <limits.h>
+#include <signal.h>
 extern "C" {
 #include "event-internal.h"
 #include "defer-internal.h"
@@ -34,6 +44,7 @@ namespace {
 const int MAXT = 8, MAXD = 44, EXIT0 = MAXT + MAXD, MAXID = 160;
 const int QUOTA = 32;   // MAX_DEFERREDS_QUEUED: the (QUOTA+2)-th deferred callback queued in one iteration goes to "later"
 enum { IDLE = 0, ACTIVE = 1, LATER = 2 };
+enum { K_PLAIN = 0, K_PERSIST = 1, K_SIG = 2, K_SIG1 = 3 };   // events: 0 | EV_PERSIST | EV_SIGNAL|EV_PERSIST | EV_SIGNAL
 enum Pc { P_OUT, P_TOP, P_AFTER_WAIT, P_POP, P_IN_CB, P_AFTER_CB };
 enum Xk { X_CB, X_WAIT, X_RET };
 struct Exp { Xk k; int v; };
@@ -42,13 +53,17 @@ struct Model {
   int npri = 1, maxcb = INT_MAX, limit_after = INT_MAX; bool has_time = false; int64_t max_us = 0;
   std::deque<int> q[6], later;
   int st[MAXID]; int pri[MAXID]; int next_exit = EXIT0;
+  int kind[MAXT] = {0}; bool added[MAXT] = {false}; int nadded = 0; int ncalls[MAXT] = {0};   // event kind, pending?, calls owed by the current activation
+  int batch_id = -1, batch_left = 0;   // signal task whose batch is running and the invocations still to come after the running one
   bool brk = false, term = false, cont = false; int ndef = 0;
   std::vector<std::pair<int64_t, int>> timers;   // pending loopexit timers (deadline, exit task id)
   Pc pc = P_OUT; int flags = 0, run_pri = -1, count = 0, cur_max = INT_MAX; bool cur_timed = false; int64_t endtime = 0; int n = 0;
   // statistics
-  int multi_pri_iters = 0, limit_count_hits = 0, limit_time_hits = 0, cont_hits = 0, brk_hits = 0, exit_runs = 0, exit_timer_fired = 0, later_promoted = 0, quota_overflow = 0, ret1 = 0, once_done = 0, nonblock_done = 0, cbs = 0;
+  int multi_pri_iters = 0, limit_count_hits = 0, limit_time_hits = 0, cont_hits = 0, brk_hits = 0, exit_runs = 0, exit_timer_fired = 0, later_promoted = 0, quota_overflow = 0, ret1 = 0, once_done = 0, nonblock_done = 0, cbs = 0, multi_batches = 0, batch_cut_brk = 0, batch_cut_del = 0, batch_ctl = 0, pending_kept_loop = 0, kinds_run = 0;
 
   bool is_def(int id) const { return id >= MAXT && id < EXIT0; }
+  bool is_sig(int id) const { return id < MAXT && kind[id] >= K_SIG; }
+  bool mid_batch(int id) const { return id == batch_id && batch_left > 0; }
   int nactive() const { int k = (int)later.size(); for (int i = 0; i < npri; i++) k += (int)q[i].size(); return k; }
   void unqueue(int id) {
     if (st[id] == ACTIVE) { auto &d = q[pri[id]]; d.erase(std::find(d.begin(), d.end(), id)); }
@@ -56,12 +71,21 @@ struct Model {
     st[id] = IDLE;
   }
   // event_active(): joins the tail of its priority queue unless already there; a "later" activation is pulled forward
-  void activate(int id) {
+  // ncalls counts only for a signal event, and only for the activation that queues it ("an obsolete argument" otherwise)
+  void activate(int id, int n = 1) {
     if (st[id] == ACTIVE) return;
     if (st[id] == LATER) unqueue(id);
     if (run_pri >= 0 && pri[id] < run_pri) cont = true;   // a more urgent event preempts the rest of the running queue
+    if (is_sig(id)) ncalls[id] = n;
     st[id] = ACTIVE; q[pri[id]].push_back(id);
   }
+  // event_del(): no longer active / later / pending; the running batch of that very event ends with the running invocation
+  void del(int id) {
+    unqueue(id);
+    if (id == batch_id) { if (batch_left > 0) batch_cut_del++; batch_left = 0; }
+    if (added[id]) { added[id] = false; nadded--; }
+  }
+  void add(int id) { if (!added[id]) { added[id] = true; nadded++; } }
   void activate_later(int id) { if (st[id] != IDLE) return; st[id] = LATER; later.push_back(id); }
   // event_deferred_cb_schedule_(): returns whether it was idle
   int schedule(int id) {
@@ -85,7 +109,7 @@ struct Model {
       case P_TOP:
         cont = false; ndef = 0;
         if (term || brk) return {X_RET, 0};
-        if (!(flags & EVLOOP_NO_EXIT_ON_EMPTY) && timers.empty() && nactive() == 0) { ret1++; return {X_RET, 1}; }
+        if (!(flags & EVLOOP_NO_EXIT_ON_EMPTY) && timers.empty() && nactive() == 0) { if (nadded == 0) { ret1++; return {X_RET, 1}; } pending_kept_loop++; }
         while (!later.empty()) { int id = later.front(); later.pop_front(); st[id] = ACTIVE; q[pri[id]].push_back(id); if (is_def(id)) ndef++; later_promoted++; }
         return {X_WAIT, 0};
       case P_AFTER_WAIT: {
@@ -103,8 +127,18 @@ struct Model {
       case P_POP: {
         int id = q[run_pri].front(); q[run_pri].pop_front(); st[id] = IDLE;
         if (id >= EXIT0) { term = true; exit_runs++; pc = P_AFTER_CB; break; }   // the loopexit event's own callback (not observable)
+        if (id < MAXT) {
+          kinds_run |= 1 << kind[id];
+          if (kind[id] != K_PERSIST && kind[id] != K_SIG && added[id]) { added[id] = false; nadded--; }   // a non-persistent event is deleted when it is dispatched
+          if (is_sig(id)) { batch_id = id; batch_left = ncalls[id] - 1; ncalls[id] = 0; if (batch_left > 0) multi_batches++; }
+        }
         pc = P_IN_CB; return {X_CB, id}; }
       case P_AFTER_CB: {
+        if (batch_id >= 0) {   // one invocation of a signal batch is over: only break (or del, see del()) stops the rest
+          if (brk) { if (batch_left > 0) batch_cut_brk++; batch_left = 0; batch_id = -1; }
+          else if (batch_left > 0) { batch_left--; pc = P_IN_CB; return {X_CB, batch_id}; }
+          else batch_id = -1;
+        }
         count++; bool end = false;
         if (brk) { n = -1; end = true; brk_hits++; }
         else if (count >= cur_max) { end = true; if (!q[run_pri].empty()) limit_count_hits++; }
@@ -127,6 +161,7 @@ struct World {
   struct event *ev[MAXT]; int nev = 0; struct event_callback dcb[MAXD]; bool no_cache = false;
   int budget = 90, waits_this_turn = 0; bool in_loop = false; int salt = 0;
   bool ctl_in_loop = false;
+  void ctl() { if (in_loop) { ctl_in_loop = true; if (m.batch_id >= 0 && m.batch_left > 0) m.batch_ctl++; } }
 };
 World *W;
 
@@ -163,24 +198,32 @@ void burst(const char *ctx) {
 void action(int which, int self, const char *ctx) {
   Src &s = *W->s; Model &m = W->m;
   switch (which) {
-    case 1: { int j = s.below(W->nev); TR("%sactive t%d (pri %d)", ctx, j, m.pri[j]); m.activate(j); event_active(W->ev[j], EV_READ, 1); break; }
-    case 2: { int j = s.below(W->nev); TR("%sactive_later t%d (pri %d)", ctx, j, m.pri[j]); m.activate_later(j); event_active_later_(W->ev[j], EV_WRITE); break; }
+    case 1: { int j = s.below(W->nev); int n = 1 + s.below(4);
+      if (m.mid_batch(j)) { TR("%s(skip: active t%d inside its own unfinished batch)", ctx, j); break; }   // see props/C03.json assumptions
+      TR("%sactive t%d (pri %d, kind %d) ncalls=%d", ctx, j, m.pri[j], m.kind[j], n); m.activate(j, n); event_active(W->ev[j], m.is_sig(j) ? EV_SIGNAL : EV_READ, (short)n); break; }
+    case 2: { int j = s.below(W->nev); if (m.is_sig(j)) { TR("%s(skip: active_later on signal event t%d)", ctx, j); break; }   // internal API, never used on signal events (ev_ncalls is not set by it)
+      TR("%sactive_later t%d (pri %d)", ctx, j, m.pri[j]); m.activate_later(j); event_active_later_(W->ev[j], EV_WRITE); break; }
     case 3: { int d = s.below(MAXD); int exp = m.schedule(MAXT + d); int r = event_deferred_cb_schedule_(W->base, &W->dcb[d]); TR("%sschedule d%d (pri %d) -> %d", ctx, d, m.pri[MAXT + d], r);
       CHECK(!!r == !!exp, "C03/schedule-return", "event_deferred_cb_schedule_(d%d)=%d, reference says %d", d, r, exp); break; }
     case 4: burst(ctx); break;
-    case 5: { TR("%sloopbreak", ctx); m.brk = true; int r = event_base_loopbreak(W->base); CHECK(r == 0, "C03/loopbreak-failed", "r=%d", r); if (W->in_loop) W->ctl_in_loop = true; break; }
+    case 5: { TR("%sloopbreak", ctx); m.brk = true; int r = event_base_loopbreak(W->base); CHECK(r == 0, "C03/loopbreak-failed", "r=%d", r); W->ctl(); break; }
     case 6: case 7: { int64_t tv_us = which == 6 ? -1 : EXIT_TV[s.below(sizeof EXIT_TV / sizeof EXIT_TV[0])];
       if (m.next_exit >= MAXID) break;
       struct timeval tv; tv.tv_sec = tv_us / 1000000; tv.tv_usec = tv_us % 1000000;
       TR("%sloopexit(%lld us) now=%lld", ctx, (long long)tv_us, (long long)sim_now_us());
-      m.loopexit(tv_us); int r = event_base_loopexit(W->base, tv_us < 0 ? nullptr : &tv); CHECK(r == 0, "C03/loopexit-failed", "r=%d", r); if (W->in_loop) W->ctl_in_loop = true; break; }
-    case 8: { TR("%sloopcontinue", ctx); m.cont = true; int r = event_base_loopcontinue(W->base); CHECK(r == 0, "C03/loopcontinue-failed", "r=%d", r); if (W->in_loop) W->ctl_in_loop = true; break; }
+      m.loopexit(tv_us); int r = event_base_loopexit(W->base, tv_us < 0 ? nullptr : &tv); CHECK(r == 0, "C03/loopexit-failed", "r=%d", r); W->ctl(); break; }
+    case 8: { TR("%sloopcontinue", ctx); m.cont = true; int r = event_base_loopcontinue(W->base); CHECK(r == 0, "C03/loopcontinue-failed", "r=%d", r); W->ctl(); break; }
     case 9: if (W->no_cache && self >= 0) { static const int64_t ADV[] = {1, 400, 1000, 5000}; int64_t a = ADV[s.below(4)]; TR("%sclock += %lld", ctx, (long long)a); sim_advance_us(a); } break;
-    case 10: { int j = s.below(W->nev); TR("%sdel t%d", ctx, j); m.unqueue(j); int r = event_del(W->ev[j]); CHECK(r == 0, "C03/del-failed", "r=%d", r); break; }
+    case 10: { int j = s.below(W->nev); TR("%sdel t%d", ctx, j); m.del(j); int r = event_del(W->ev[j]); CHECK(r == 0, "C03/del-failed", "r=%d", r); break; }
     case 11: { int d = s.below(MAXD); TR("%scancel d%d", ctx, d); m.unqueue(MAXT + d); event_deferred_cb_cancel_(W->base, &W->dcb[d]); break; }
     case 12: { int j = s.below(W->nev); int p = s.below(m.npri); int exp = m.st[j] == ACTIVE ? -1 : 0; int r = event_priority_set(W->ev[j], p); TR("%spriority_set t%d %d -> %d", ctx, j, p, r);
       CHECK(r == exp, "C03/priority-set", "event_priority_set on %s event returned %d", m.st[j] == ACTIVE ? "an active" : "a non-active", r); if (r == 0) m.pri[j] = p; break; }
-    case 13: if (self >= 0 && self < MAXT) { TR("%sre-activate self t%d", ctx, self); m.activate(self); event_active(W->ev[self], EV_READ, 1); } break;
+    case 13: if (self >= 0 && self < MAXT) { int n = 1 + s.below(4);
+      if (m.mid_batch(self)) { TR("%s(skip: re-activate self t%d inside its own unfinished batch)", ctx, self); break; }
+      TR("%sre-activate self t%d ncalls=%d", ctx, self, n); m.activate(self, n); event_active(W->ev[self], m.is_sig(self) ? EV_SIGNAL : EV_READ, (short)n); } break;
+    case 14: { int j = s.below(W->nev);   // make a signal event pending (the signal itself is never raised); only while it is not active: event_add on an active event is a separate question
+      if (!m.is_sig(j) || m.st[j] != IDLE) break;
+      TR("%sadd t%d", ctx, j); m.add(j); int r = event_add(W->ev[j], nullptr); CHECK(r == 0, "C03/add-failed", "event_add(signal event)=%d", r); break; }
     default: break;
   }
 }
@@ -188,10 +231,10 @@ void action(int which, int self, const char *ctx) {
 void on_callback(int id, const char *kind) {
   Model &m = W->m; Src &s = *W->s;
   CHECK(W->in_loop, "C03/callback-outside-loop", "%s %d ran outside event_base_loop", kind, id);
-  TR("  run %s%d pri=%d now=%lld", kind, id < MAXT ? id : id - MAXT, m.pri[id], (long long)sim_now_us());
   expect(X_CB, id, "callback");
+  TR("  run %s%d pri=%d now=%lld%s", kind, id < MAXT ? id : id - MAXT, m.pri[id], (long long)sim_now_us(), id == m.batch_id ? (m.batch_left ? " (signal batch, more to come)" : " (signal batch, last call)") : "");
   m.cbs++;
-  if (W->budget > 0) { int nact = s.below(3); for (int k = 0; k < nact && W->budget > 0; k++) { W->budget--; action(s.below(14), id, "    in-cb "); } }
+  if (W->budget > 0) { int nact = s.below(3); for (int k = 0; k < nact && W->budget > 0; k++) { W->budget--; action(s.below(15), id, "    in-cb "); } }
   m.pc = P_AFTER_CB;
 }
 void ev_cb(evutil_socket_t, short, void *arg) { on_callback((int)(intptr_t)arg, "t"); }
@@ -257,7 +300,14 @@ extern "C" int LLVMFuzzerTestOneInput(const uint8_t *data, size_t size) {
   CHECK(pr == 0 && event_base_get_npriorities(w.base) == m.npri, "C03/priority-init", "event_base_priority_init(%d)=%d npriorities=%d", m.npri, pr, event_base_get_npriorities(w.base));
   w.nev = 2 + s.below(MAXT - 1); w.salt = s.below(7);
   TR("base backend=%s npri=%d no_cache=%d tasks=%d", event_base_get_method(w.base), m.npri, w.no_cache, w.nev);
-  for (int i = 0; i < w.nev; i++) { m.pri[i] = s.below(m.npri); w.ev[i] = event_new(w.base, -1, 0, ev_cb, (void *)(intptr_t)i); int r = event_priority_set(w.ev[i], m.pri[i]); CHECK(r == 0, "C03/priority-set", "initial event_priority_set=%d", r); }
+  static const short KIND_EVENTS[] = {0, EV_PERSIST, EV_SIGNAL | EV_PERSIST, EV_SIGNAL};
+  for (int i = 0; i < w.nev; i++) {
+    m.pri[i] = s.below(m.npri); m.kind[i] = s.below(4);
+    w.ev[i] = event_new(w.base, m.is_sig(i) ? ((i & 1) ? SIGWINCH : SIGURG) : -1, KIND_EVENTS[m.kind[i]], ev_cb, (void *)(intptr_t)i);
+    CHECK(w.ev[i] != nullptr, "C03/event-new-failed", "event_new(kind %d) failed", m.kind[i]);
+    int r = event_priority_set(w.ev[i], m.pri[i]); CHECK(r == 0, "C03/priority-set", "initial event_priority_set=%d", r);
+    TR("task t%d: kind %d (%s) pri %d", i, m.kind[i], m.kind[i] == K_PLAIN ? "plain" : m.kind[i] == K_PERSIST ? "EV_PERSIST" : m.kind[i] == K_SIG ? "EV_SIGNAL|EV_PERSIST" : "EV_SIGNAL", m.pri[i]);
+  }
   for (int d = 0; d < MAXD; d++) { m.pri[MAXT + d] = (d * 5 + w.salt) % m.npri; event_deferred_cb_init_(&w.dcb[d], (ev_uint8_t)m.pri[MAXT + d], def_cb, (void *)(intptr_t)(MAXT + d)); }
 
   static const int LOOPFLAGS[] = {EVLOOP_ONCE, 0, EVLOOP_NONBLOCK, EVLOOP_NO_EXIT_ON_EMPTY, EVLOOP_ONCE | EVLOOP_NONBLOCK, EVLOOP_ONCE | EVLOOP_NO_EXIT_ON_EMPTY, EVLOOP_NONBLOCK | EVLOOP_NO_EXIT_ON_EMPTY, EVLOOP_ONCE | EVLOOP_NONBLOCK | EVLOOP_NO_EXIT_ON_EMPTY};
@@ -273,9 +323,9 @@ extern "C" int LLVMFuzzerTestOneInput(const uint8_t *data, size_t size) {
     check_flags("after loop"); check_counts("after loop");
   };
   for (int step = 0; step < 40; step++) {
-    int op = s.below(16);
+    int op = s.below(17);
     if (op == 0) break;
-    if (op >= 14) turn(LOOPFLAGS[s.below(8)]);
+    if (op >= 15) turn(LOOPFLAGS[s.below(8)]);
     else { action(op, -1, ""); check_counts("after op"); check_flags("after op"); }
     event_base_assert_ok_(w.base);
   }
@@ -288,12 +338,14 @@ extern "C" int LLVMFuzzerTestOneInput(const uint8_t *data, size_t size) {
   for (int d = 0; d < MAXD; d++) event_deferred_cb_cancel_(w.base, &w.dcb[d]);
   event_base_free(w.base);
   CHECK(sim_mem_live_blocks == live0, "C03/leak", "library allocations outstanding after base free: %lld", (long long)(sim_mem_live_blocks - live0));
-  bool ctl = w.ctl_in_loop || m.limit_count_hits || m.limit_time_hits || m.later_promoted || m.quota_overflow;
+  bool ctl = w.ctl_in_loop || m.limit_count_hits || m.limit_time_hits || m.later_promoted || m.quota_overflow || m.multi_batches;
   int nontrivial = m.multi_pri_iters >= 1 && ctl;
   if (m.multi_pri_iters) verif_class("two_priorities_in_one_iteration"); if (m.limit_count_hits) verif_class("callback_cap_hit"); if (m.limit_time_hits) verif_class("time_cap_hit");
   if (m.cont_hits) verif_class("continue_or_preempt_cut_queue"); if (m.brk_hits) verif_class("break_stopped_loop"); if (m.exit_runs) verif_class("loopexit_ran"); if (m.exit_timer_fired) verif_class("loopexit_timer_fired");
   if (m.later_promoted) verif_class("later_promoted"); if (m.quota_overflow) verif_class("deferred_quota_overflow"); if (m.ret1) verif_class("returned_1_empty"); if (m.once_done) verif_class("once_done"); if (m.nonblock_done) verif_class("nonblock_done");
   if (w.ctl_in_loop) verif_class("control_call_in_callback"); if (m.cbs) verif_class("callbacks_ran");
+  if (m.multi_batches) verif_class("signal_batch_of_2_or_more"); if (m.batch_ctl) verif_class("control_call_inside_unfinished_batch"); if (m.batch_cut_brk) verif_class("batch_cut_by_break"); if (m.batch_cut_del) verif_class("batch_cut_by_del");
+  if (m.pending_kept_loop) verif_class("pending_event_kept_loop_running"); if (m.kinds_run & 2) verif_class("persist_event_ran"); if (m.kinds_run & 8) verif_class("oneshot_signal_event_ran");
   verif_case_end(nontrivial, s.h);
   W = nullptr;
   return 0;
